@@ -38,11 +38,29 @@ def quiesce(timeout=5.0):
     return ev.wait(timeout)
 
 
-def deliver(main, dgram, addr, *, iface=None, watchdog=2.0, settle=5.0):
-    """Feed one datagram through the receive path of the default interface and wait until the
-    dispatch it scheduled has run.  Returns 'ok', 'raise:<Exc>' (an exception escaped into the
-    receiver), 'hang' (the receive path was still running after `watchdog` seconds of real time and
-    had to be interrupted) or 'stuck' (the clock never ran the dispatch).  Main thread only."""
+def deliver(main, dgram, addr, *, iface=None, watchdog=3.0, settle=20.0, udp=None):
+    """THE one place where a datagram is handed to the receiver and waited for.
+
+    direct (udp=None): call iface._handle_request(bytes, addr) on this thread, then wait until the
+        dispatch it scheduled on SystemClock has run (a marker task scheduled behind it).
+    loopback (udp=UdpPath): send the datagram from a real socket to the interface's port; the library's
+        own receive thread calls _handle_request; wait for a sentinel datagram sent behind it.
+    Returns 'ok', 'raise:<Exc>' (an exception escaped into the receiver), 'hang' (the receive path was
+    still running after the watchdog - twice, the second time with a doubled watchdog, so that a
+    descheduled process is not mistaken for a hang) or 'stuck' (the clock never ran the dispatch)."""
+    if udp is not None:
+        return udp.deliver(bytes(dgram), addr, settle)
+    res = _deliver_direct(main, dgram, addr, iface, watchdog)
+    if res == 'hang':
+        res = _deliver_direct(main, dgram, addr, iface, watchdog * 2)
+    if res == 'hang':
+        return res
+    if not quiesce(settle):
+        return 'stuck'
+    return res
+
+
+def _deliver_direct(main, dgram, addr, iface, watchdog):
     fired = []
 
     def alarm(_sig, _frm):
@@ -65,9 +83,48 @@ def deliver(main, dgram, addr, *, iface=None, watchdog=2.0, settle=5.0):
         signal.signal(signal.SIGALRM, old)
     if fired:       # _handle_request swallows every exception, including the watchdog's
         return 'hang'
-    if not quiesce(settle):
-        return 'stuck'
     return res
+
+
+class UdpPath:
+    """Real UDP loopback: one sending socket per (host, symbolic port); a sentinel message, seen by a raw
+    receive function (not a responder, so invisible to the dispatch model), marks "processed"."""
+    SENTINEL = b'/verif_sentinel\0,\0\0\0'
+
+    def __init__(self, main, hosts, senders):
+        import socket
+        self.main = main
+        self.socks = {}
+        self.sym = {}            # (host, real port) -> symbolic port
+        for h, p in senders:
+            s = socket.socket(socket.AF_INET, socket.SOCK_DGRAM)
+            s.bind((hosts[h], 0))
+            self.socks[(h, p)] = s
+            self.sym[(hosts[h], s.getsockname()[1])] = p
+        self.hosts = hosts
+        self.ev = threading.Event()
+        self.dead = False
+        main.add_osc_recv_func(self._sentinel)
+
+    def real_port(self, h, p):
+        return self.socks[(h, p)].getsockname()[1]
+
+    def _sentinel(self, msg, time, addr, port):
+        if msg[0] == '/verif_sentinel':
+            self.ev.set()
+
+    def deliver(self, dgram, src, settle, port=None):
+        if self.dead:
+            return 'hang'
+        s = self.socks[src]
+        port = port or self.main._osc_interface.port
+        self.ev.clear()
+        s.sendto(dgram, ('127.0.0.1', port))
+        s.sendto(self.SENTINEL, ('127.0.0.1', port))
+        if not self.ev.wait(settle):
+            self.dead = True        # the receive thread never came back
+            return 'hang'
+        return 'ok'
 
 
 # --------------------------------------------------------------------------- projection
